@@ -10,6 +10,7 @@ NEG = {'neg-1-1': ['C05', 'C03', 'C15'], 'neg-1-2': ['C09', 'C12', 'C02', 'C08']
        'neg-3-3': ['C02', 'C11', 'C08'], 'neg-4-1': ['C01', 'C06', 'C10', 'C03'], 'neg-4-2': ['C05', 'C15', 'C04', 'C13'], 'neg-4-3': ['C02', 'C09', 'C11', 'C13'],
        'neg-5-1': ['C12'], 'neg-5-2': ['C12', 'C13', 'C02', 'C01'], 'neg-5-3': ['C09', 'C02', 'C11', 'C12']}
 EXTRA = {
+    'C02-r5-1': ['C11', 'C08'], 'C03-r5-1': ['C06'], 'C10-r5-1': ['C01'], 'C12-r5-1': ['C09'], 'C13-r5-1': ['C07'], 'C08-r5-1': ['C02'],
     'C04-m1': ['C13'], 'C05-m1': ['C04', 'C13'], 'C13-m2': ['C05'], 'C12-m2': ['C09'], 'C08-m2': ['C01'], 'C10-m1': ['C01', 'C06'],
     'C11-m2': ['C02'], 'C06-m2': ['C01'], 'C04-m2': ['C05', 'C12'], 'C05-m2': ['C04', 'C12'], 'C09-m2': ['C13'], 'C15-m2': ['C13'],
     'C10-r4-32': ['C05'], 'C07-r4-41': ['C01'], 'C09-r4-21': ['C08'], 'C04-r4-12': ['C05'],
